@@ -75,6 +75,21 @@ theorem code_shape :
       ["select:send = <-wm.send{t.Stop()}|<-t.C{send = true}", "lock", "defer-unlock", "delete-if-own", "return-unless-send", "send"] ∧
     Generated.willSignalShape = ["non-blocking-send"] ∧ Generated.willSignalChannel = ["make(chan bool, 1)"] := by decide
 
+/-- Besides the goroutine, exactly four statements of server/server.go touch the table of pending wills or signal a will,
+    and they are the ones the model's steps transcribe (fingerprints of "function: statement", `Generated.willSites` has the
+    texts):
+
+      sessionTerminatedLocked: if w, ok := srv.willMessage[clientID]; ok { w.signal(true) }                    -- `terminate`
+      registerClient: if w, ok := srv.willMessage[client.opts.ClientID]; ok { w.signal(false) }                -- `resume`
+      registerClient: if w, ok := srv.willMessage[client.opts.ClientID]; ok { w.signal(true) }                 -- discarded on take-over
+      unregisterClient: srv.willMessage[client.opts.ClientID] = wm                                             -- `discWill`
+
+    None of them deletes an entry or publishes by itself: publication and removal belong to the goroutine alone, which is
+    what `will_published_at_most_once` and `no_orphan_will` rest on. A new site, or one of these doing more, changes the
+    protocol between the goroutine and the rest of the broker and the model has to be revisited. -/
+theorem will_table_sites :
+    Generated.willSitesH = [10254449101128154510, 449044565644613609, 9324400592424825336, 11441625322029165376] := by decide
+
 /-- which of the two versions of the model the code is -/
 def codeAsIs : Bool := !(Generated.willGoroutineSteps.contains "delete-if-own")
 
